@@ -99,7 +99,7 @@ def cases():
             prog["_steer"] = {"no_static_props_on_opaque": b == "nanobind", "no_fallible_indexer": b == "kotlin", "no_self_ctor": False}
             prog["special"] = S.add_special_methods(draw, prog)     # getters/setters, constructors, stringifiers, comparators, indexers, iterators
         if b in ("kotlin", "c") and draw(st.integers(0, 3)) == 0:
-            S.add_trait(draw, prog)      # bridged traits: kotlin and c are the backends that accept them
+            S.add_trait(draw, prog, options=(b == "c"))      # bridged traits: kotlin and c are the backends that accept them
         return b, prog
     return c()
 
